@@ -26,6 +26,7 @@ TECHNIQUE = "static analysis: grammar recovery from nom combinators and format t
 
 # ---------------------------------------------------------------------------------------------
 # reader grammar
+from ..facts import op_place
 
 
 def parser_expr(f):
@@ -613,6 +614,107 @@ def k5(led, rid, ctx):
     led.floor(rid, "literal-definition line shapes", n, 5)
 
 
+def _char_pred_table(g, chars="aZ5_- ["):
+    """{char: bool} of a `|c: char| -> bool` closure decided on representative characters, or None"""
+    ci = None
+    for a in g.args:
+        if a["ty"] in ("char", "&char"):
+            ci = a["local"]
+    if ci is None:
+        return None
+    paths = [p for p in SymExec(g, max_paths=64).run() if not p.diverged]
+
+    def ev(e, ch):
+        e = peel(e, calls=None)
+        if e.k == "arg" and e.a == ci:
+            return ord(ch)
+        if e.k == "const":
+            if e.a is not None:
+                return e.a
+            return None
+        if e.k == "unop" and e.a == "Not":
+            v = ev(e.b, ch)
+            return None if v is None else int(not v)
+        if e.k == "binop":
+            x, y = ev(e.b, ch), ev(e.c, ch)
+            if x is None or y is None:
+                return None
+            return {"Eq": int(x == y), "Ne": int(x != y), "BitOr": int(bool(x) or bool(y)), "Le": int(x <= y),
+                    "Ge": int(x >= y), "Lt": int(x < y), "Gt": int(x > y),
+                    "BitAnd": int(bool(x) and bool(y))}.get(e.a)
+        if e.k == "call" and e.b:
+            x = ev(e.b[0], ch)
+            if x is None:
+                return None
+            c = chr(x)
+            t = {"is_ascii_alphabetic": c.isascii() and c.isalpha(), "is_ascii_alphanumeric": c.isascii() and c.isalnum(),
+                 "is_ascii_digit": c.isascii() and c.isdigit(), "is_alphabetic": c.isalpha(), "is_alphanumeric": c.isalnum(),
+                 "is_numeric": c.isnumeric(), "is_ascii_whitespace": c in " \t\n\r\x0c", "is_whitespace": c.isspace(),
+                 "is_ascii_lowercase": c.isascii() and c.islower(), "is_ascii_uppercase": c.isascii() and c.isupper()}
+            if e.a.name in t:
+                return int(t[e.a.name])
+        return None
+    out = {}
+    for ch in chars:
+        res = set()
+        for p in paths:
+            feas = True
+            for cond, val, others in p.conds:
+                v = ev(cond, ch)
+                if v is None:
+                    return None
+                if val is not None:
+                    feas = feas and (v == val)
+                else:
+                    feas = feas and (v not in (others or []))
+            if feas:
+                r = ev(p.ret, ch) if p.ret is not None else None
+                if r is None:
+                    return None
+                res.add(bool(r))
+        if len(res) != 1:
+            return None
+        out[ch] = res.pop()
+    return out
+
+
+def _scanner_language(f):
+    """(first-character table, continuation table) of a hand-written identifier scanner: the closure
+    given to `starts_with` decides the first character, the closure given to a search / take over the
+    input decides where the name ends.  None if the function is not of that shape"""
+    import re
+    first = cont = None
+    by_line = {}
+    for g in f.closures:
+        m = re.search(r":(\d+)", str(g.span))
+        if m:
+            by_line.setdefault(int(m.group(1)), []).append(g)
+    for c in f.calls:
+        for a in c.args:
+            pl = op_place(a)
+            if pl is None:
+                continue
+            ty = f.locals[pl["local"]]["ty"]
+            m = re.search(r"closure@[^:]+:(\d+):", ty)
+            if not m:
+                continue
+            gs = by_line.get(int(m.group(1)), [])
+            if len(gs) != 1:
+                return None
+            t = _char_pred_table(gs[0])
+            if t is None:
+                return None
+            if c.name == "starts_with":
+                first = t
+            elif c.name in ("find", "position", "take_till", "split_at_position", "trim_start_matches_not"):
+                cont = {k: not v for k, v in t.items()}       # the search stops at the first character it accepts
+            elif c.name in ("take_while", "take_while1", "trim_start_matches", "all"):
+                cont = t
+    if first is None or cont is None:
+        return None
+    return first, cont
+
+
 def k6(led, rid, ctx):
     """SIBLINGS: the two identifier parsers (proof reader, literal-definition reader) accept the same
     language, which is the language of names the writer passes through verbatim"""
@@ -625,6 +727,22 @@ def k6(led, rid, ctx):
             e = peel(e.b[0], calls=None)
         return show(e) if e is not None else None
     ca, cb = core(a), core(b)
+    # one of the two is the other's forwarder (a shared parser), or both are hand-written scanners:
+    # decide the language on representative characters instead of comparing combinator trees
+    la, lb = (_scanner_language(a) if ca is None else None), (_scanner_language(b) if cb is None else None)
+    cbn = (cb or "").strip("'\"` ")
+    fwd_b = bool(cbn) and b is not a and (cbn == a.defn or cbn.endswith("::" + a.defn) or a.defn.endswith("::" + cbn))
+    if la is not None and (fwd_b or la == lb):
+        want_first = {"a": True, "Z": True, "5": False, "_": True, "-": False, " ": False, "[": False}
+        want_cont = {"a": True, "Z": True, "5": True, "_": True, "-": False, " ": False, "[": False}
+        led.check(True, rid, "identifier-parsers-agree", a.span, "one shared scanner / equal character tables", "")
+        led.check(la[0] == want_first and la[1] == want_cont, rid, "identifier-may-start-with-underscore", a.span,
+                  "[A-Za-z_][A-Za-z0-9_]* on representative characters",
+                  "the identifier scanner accepts first characters %s and continuation characters %s: identifiers "
+                  "starting with `_` (introduced variables, internal labels) or another name the writer passes "
+                  "through verbatim are not accepted by the reader"
+                  % (sorted(k for k, v in la[0].items() if v), sorted(k for k, v in la[1].items() if v)))
+        return
     led.check(ca is not None and ca == cb, rid, "identifier-parsers-agree", a.span, "same combinator tree",
               "the proof reader's identifier grammar (%s) differs from the literal-definition reader's (%s): a "
               "name that one file of a proof may contain is rejected in the other; the writer emits labels and "
